@@ -249,6 +249,16 @@ SPECS = [
          select="comp-elt:chunk_fetch_factor", ty="Int", result="val", noinline=True),
     dict(name="statsChunksPerAxis", file="scripts/scale_stats.py", func="show_scales_info",
          select="comp-elt:size_in_chunks", ty="Int", result="val", noinline=True),
+    dict(name="sliceGroups", file="scripts/slices_to_precomputed.py", func="slices_to_raw_chunks",
+         select="range-of:slice_chunk_idx", ty="Int", result="val", noinline=True),
+    dict(name="sliceFirstInOrder", file="scripts/slices_to_precomputed.py", func="slices_to_raw_chunks",
+         select="assign:first_slice_in_order", ty="Int", result="val", noinline=True),
+    dict(name="sliceLastInOrder", file="scripts/slices_to_precomputed.py", func="slices_to_raw_chunks",
+         select="assign:last_slice_in_order", ty="Int", result="val", noinline=True),
+    dict(name="sliceFirstReversed", file="scripts/slices_to_precomputed.py", func="slices_to_raw_chunks",
+         select="assign:first_slice", ty="Int", result="val", noinline=True),
+    dict(name="sliceLastReversed", file="scripts/slices_to_precomputed.py", func="slices_to_raw_chunks",
+         select="assign:last_slice", ty="Int", result="val", noinline=True),
     dict(name="scaleFactor", file="dyadic_pyramid.py", func="fill_scales_for_dyadic_pyramid.downscale_info",
          select="comp-elt:factors", ty="Int", result="val", noinline=True),
     dict(name="scaleSize", file="dyadic_pyramid.py", func="fill_scales_for_dyadic_pyramid.downscale_info",
@@ -295,6 +305,12 @@ FALLBACK = {
     "pyrHalfChunk": ("(osz f : Int)", "Int", "(osz / f)"),
     "pyrFetchFactor": ("(nsz hc : Int)", "Int", "(nsz / hc)"),
     "statsChunksPerAxis": ("(s cs : Int)", "Int", "(((s - (1 : Int)) / cs) + (1 : Int))"),
+    "sliceGroups": ("(input_size_2 input_chunk_size_2 : Int)", "Int", "(((input_size_2 - (1 : Int)) / input_chunk_size_2) + (1 : Int))"),
+    "sliceFirstInOrder": ("(input_chunk_size_2 slice_chunk_idx : Int)", "Int", "(input_chunk_size_2 * slice_chunk_idx)"),
+    "sliceLastInOrder": ("(input_chunk_size_2 slice_chunk_idx input_size_2 : Int)", "Int",
+                         "(min (input_chunk_size_2 * (slice_chunk_idx + (1 : Int))) input_size_2)"),
+    "sliceFirstReversed": ("(input_size_2 first_slice_in_order : Int)", "Int", "((input_size_2 - first_slice_in_order) - (1 : Int))"),
+    "sliceLastReversed": ("(input_size_2 last_slice_in_order : Int)", "Int", "((input_size_2 - last_slice_in_order) - (1 : Int))"),
     "scaleFactor": ("(scale_level delay : Int)", "Int", "((2 : Int) ^ (max (0 : Int) (scale_level - delay)).toNat)"),
     "scaleSize": ("(sz axis_factor : Int)", "Int", "(ceilDiv sz axis_factor)"),
     "anisotropyFactor": ("(max_delay delay scale_level : Int)", "Int", "(max (0 : Int) ((max_delay - delay) - scale_level))"),
